@@ -391,6 +391,11 @@ func scenSUB(s *sched.Sim, cfg Config, res *Result) {
 	res.ProbeN("sub.heartbeats-received", hb)
 	res.ProbeN("sub.subscriptions", len(specs))
 	res.ProbeN("sub.connections", nConn)
+	for _, k := range sortedKeys(env.fired) {
+		for i := 0; i < env.fired[k]; i++ {
+			res.Fault(k)
+		}
+	}
 	res.Nontrivial = totalEvents >= 2 && len(specs) >= 1
 	var descr []string
 	for _, sp := range specs {
